@@ -162,7 +162,7 @@ def run_check(prop: str, tier: str, rx_part: Any = None) -> int:
     # ---- conformance
     ncf = 300 if tier == "quick" else 4000
     step = max(1, len(traces) // ncf)
-    idxs = [i for i in range(0, len(traces), step) if not any(o[-1] == "failk" or o[0] in ("rerun", "kiqbad") for o in scns[i]["ops"])][:ncf]   # refused re-sends, redelivery: not modelled
+    idxs = [i for i in range(0, len(traces), step) if not any(o[-1] == "failk" or o[0] in ("rerun", "kiqbad", "skiq") for o in scns[i]["ops"])][:ncf]   # refused re-sends, redelivery: not modelled
     ctext = "SPECIFICATION TraceSpec\n" + const_text(sw, 1000, [], [], [], cfgs="Cfgs = {}") + \
             "INVARIANT Progress\nPOSTCONDITION Done\nCHECK_DEADLOCK FALSE\n"
     try:
